@@ -391,9 +391,20 @@ def getattr_(it, obj, name, node=None):
     if isinstance(obj, tuple):
         if name == 'index' or name == 'count':
             raise Unsupported('tuple.' + name)
-    if is_intlike(obj):
-        if name == 'to_bytes' or name == 'bit_length':
+    if is_intlike(obj) and not isinstance(obj, bool):
+        if name == 'to_bytes':
+            return Builtin('int.to_bytes', lambda it_, a, kw, n, v=obj: int_to_bytes(it_, v, a, kw, n))
+        if name == 'bit_length':
             raise Unsupported('int.' + name)
+    if isinstance(obj, Builtin) and obj.name == 'int' and name == 'from_bytes':
+        return Builtin('int.from_bytes', int_from_bytes)
+    if isinstance(obj, Builtin) and obj.name == 'dict' and name == 'fromkeys':
+        def fromkeys(it_, a, kw, n):
+            d = PDict()
+            for k in it_.iterate(a[0], n):
+                d.set(k, a[1] if len(a) > 1 else None)
+            return d
+        return Builtin('dict.fromkeys', fromkeys)
     if type(obj).__name__ == 'ForeignObj':
         it.raise_if(z3.Bool(obj.tag + '.lacks.' + name), 'AttributeError', 'foreign-attr', node)
         return OpaqueVal('foreign', (z3.Int(obj.tag + '.' + name),))
@@ -402,6 +413,83 @@ def getattr_(it, obj, name, node=None):
     if r is not MISSING:
         return r
     raise Unsupported('attribute %s of %s' % (name, type(obj).__name__))
+
+
+def _byteorder(it, order, node):
+    """z3 Bool 'little' for a byte-order argument (a host symbol when it is sys.byteorder)"""
+    if isinstance(order, str):
+        if order not in ('little', 'big'):
+            raise PyExc('ValueError', "byteorder must be either 'little' or 'big'", site=(getattr(node, 'lineno', None), 'byteorder'), kind='byteorder')
+        return z3.BoolVal(order == 'little')
+    from .libops import _single_atom
+    t = _single_atom(order) if is_strlike(order) else None
+    if t is not None:
+        from .values import intern_str
+        return t == z3.IntVal(intern_str('little'))
+    raise Unsupported('symbolic byte order')
+
+
+def int_to_bytes(it, v, args, kw, node):
+    n = args[0] if args else kw.get('length', 1)
+    order = args[1] if len(args) > 1 else kw.get('byteorder', 'big')
+    signed = bool(kw.get('signed', False))
+    if not isinstance(n, int):
+        raise Unsupported('symbolic length of to_bytes')
+    little = _byteorder(it, order, node)
+    if isinstance(v, int) and z3.is_true(z3.simplify(little)) or isinstance(v, int) and z3.is_false(z3.simplify(little)):
+        try:
+            return v.to_bytes(n, 'little' if z3.is_true(z3.simplify(little)) else 'big', signed=signed)
+        except OverflowError:
+            raise PyExc('OverflowError', 'int too big to convert', site=(getattr(node, 'lineno', None), 'overflow'), kind='overflow')
+    t = zi(v)
+    if signed:
+        it.raise_if(z3.Or(t < -(1 << (8 * n - 1)), t >= (1 << (8 * n - 1))), 'OverflowError', 'overflow', node)
+        w = z3.If(t < 0, t + (1 << (8 * n)), t)
+    else:
+        it.raise_if(z3.Or(t < 0, t >= (1 << (8 * n))), 'OverflowError', 'overflow', node)
+        w = t
+    digs = []
+    for i in range(n):
+        b = z3.Int(it.ctx.fresh('byte'))
+        it.ctx.declare_range(b, 0, 255)
+        digs.append(b)
+    it.ctx.facts.append(w == z3.Sum([d * (1 << (8 * i)) for i, d in enumerate(digs)]) if n else w == 0)
+    le = [SInt(d) for d in digs]
+    ls = z3.simplify(little)
+    if z3.is_true(ls):
+        return SBytes(le)
+    if z3.is_false(ls):
+        return SBytes(list(reversed(le)))
+    return SBytes([SInt(z3.If(little, a.t, b.t)) for a, b in zip(le, reversed(le))])
+
+
+def int_from_bytes(it, args, kw, node):
+    b = args[0]
+    order = args[1] if len(args) > 1 else kw.get('byteorder', 'big')
+    signed = bool(kw.get('signed', False))
+    little = _byteorder(it, order, node)
+    if isinstance(b, bytes):
+        elems = list(b)
+    elif isinstance(b, SBytes):
+        elems = list(b.elems)
+    else:
+        raise Unsupported('int.from_bytes of %s' % type(b).__name__)
+    n = len(elems)
+    ls = z3.simplify(little)
+    if all(isinstance(e, int) for e in elems) and (z3.is_true(ls) or z3.is_false(ls)):
+        return int.from_bytes(bytes(elems), 'little' if z3.is_true(ls) else 'big', signed=signed)
+
+    def total(seq):
+        return z3.Sum([zi(e) * (1 << (8 * i)) for i, e in enumerate(seq)]) if seq else z3.IntVal(0)
+    if z3.is_true(ls):
+        t = total(elems)
+    elif z3.is_false(ls):
+        t = total(list(reversed(elems)))
+    else:
+        t = z3.If(little, total(elems), total(list(reversed(elems))))
+    if signed and n:
+        t = z3.If(t >= (1 << (8 * n - 1)), t - (1 << (8 * n)), t)
+    return mk_int(z3.simplify(t))
 
 
 def bind_attr(it, v, inst, cls):
